@@ -4,6 +4,7 @@ from __future__ import annotations
 import ast
 
 from sa.core import Ob
+from sa.ex import attributed
 from sa.pm import AnalysisError, norm, body_nodes
 from sa import gi, df, ru, sym
 from sa.pm import Undecided
@@ -64,10 +65,11 @@ def c18_1(ctx):
         escs = ex.escapes(m)
         remaining = []
         for e in escs:
-            why = INFEASIBLE.get((m.name, e.exc, e.func)) or INFEASIBLE.get(("*", e.exc, e.func))
+            owner = attributed(ctx.p, e)        # code moved into a new helper keeps the disposition of the function it came from
+            why = INFEASIBLE.get((m.name, e.exc, owner)) or INFEASIBLE.get(("*", e.exc, owner))
             if why is None and m.name in ("public_key", "secret", "__call__", "private_key", "hierarchical_key", "payable", "address"):
                 # dispatchers call the per-kind parsers: accept what is tabulated for any of them
-                why = next((w for (ent, exc, fn), w in INFEASIBLE.items() if exc == e.exc and fn == e.func), None)
+                why = next((w for (ent, exc, fn), w in INFEASIBLE.items() if exc == e.exc and fn == owner), None)
             if why is None:
                 remaining.append(e)
         for e in remaining:
@@ -83,9 +85,30 @@ def cache_calls(ctx):
     """(module, call node, key expr, cached function expr) for every <parseable_str>.cache(key, f) call in the repo"""
     out = []
     for m in ctx.p.modules.values():
-        for n in ast.walk(m.tree):
-            if isinstance(n, ast.Call) and isinstance(n.func, ast.Attribute) and n.func.attr == "cache" and len(n.args) == 2 and not n.keywords:
-                out.append((m, n, n.args[0], n.args[1]))
+        if ".cache(" not in m.source and "_cached" not in m.source:
+            continue
+        hit = False
+        # as each function performs them (helpers added since the review spliced in, locals substituted): a call routed
+        # through a new wrapper `_cached_parse(s, "b58", f)` is the same `.cache("b58", f)` call
+        for q, fi in sorted(ctx.p.functions.items()):
+            if fi.module is not m or isinstance(fi.node, ast.Lambda) or fi.parent is not None:
+                continue
+            src = ast.get_source_segment(m.source, fi.node) or ""
+            if ".cache(" not in src and "_cached" not in src:
+                continue
+            try:
+                w = sym.walk(ctx, fi)
+            except Exception:
+                continue
+            for e in w.effects:
+                c = getattr(e, "call", None)
+                if e.kind == "call" and isinstance(c.func, ast.Attribute) and c.func.attr == "cache" and len(c.args) == 2 and not [k for k in c.keywords if k.arg != "__n"]:
+                    out.append((m, e.node if e.node is not None else fi.node, c.args[0], e.raw.args[1] if isinstance(e.raw.func, ast.Attribute) and e.raw.func.attr == "cache" and len(e.raw.args) == 2 else c.args[1]))
+                    hit = True
+        if not hit:
+            for n in ast.walk(m.tree):
+                if isinstance(n, ast.Call) and isinstance(n.func, ast.Attribute) and n.func.attr == "cache" and len(n.args) == 2 and not n.keywords:
+                    out.append((m, n, n.args[0], n.args[1]))
     return out
 
 
